@@ -4,11 +4,12 @@ import math
 from .common import ints
 
 PROP_FILE = "Properties/C14.v"
-GEN = ["GenC14"]
-RUN_FILES = ["Model/C14_run.v"]
+GEN = ["GenC14", "GenC14imp"]
+RUN_FILES = ["Model/C14_run.v", "Model/C14_imp_run.v"]
 
 HDR = ("From Coq Require Import ZArith List Bool PrimFloat.\n"
-       "From PR Require Import Base.Num Base.F64 Base.ListX Model.Grid Model.DynBase Model.Dynamic Model.C14_run.\n"
+       "From PR Require Import Base.Num Base.F64 Base.ListX Model.Grid Model.DynBase Model.Dynamic Model.C14_run Model.DynImp "
+       "Model.C14_imp_run.\n"
        "Import ListNotations.\nOpen Scope Z_scope.\n")
 
 NAN = float("nan")
@@ -736,7 +737,9 @@ def run(ctx):
     wraps = [r.uniform(-400, 800) for _ in range(ctx.n(150, 1500))] + [0.0, -0.0, 360.0, -360.0, 720.0, 180.0, -180.0, 1e-20, -1e-20,
                                                                      359.99999999999994, -5e-324, 1e300, -1e300, NAN, math.inf]
     hcases = gen_history_cases(ctx)
-    obs = ctx.impl("c14", {"freeze": fcases, "compute_domain": ccases, "wrap": [hexs(v) for v in wraps], "history": hcases})
+    xcases = [[0, False], [1, True], [1, False], [2, False]]
+    obs = ctx.impl("c14", {"freeze": fcases, "compute_domain": ccases, "wrap": [hexs(v) for v in wraps], "history": hcases,
+                           "extract": xcases})
     for h, o in zip(hcases, obs["history"]):
         name = h["crs"]["proj"] if isinstance(h["crs"], dict) else h["crs"]
         ctx.count("history:%s x%d" % (name, len(h["calls"])))
@@ -809,7 +812,21 @@ def run(ctx):
         LW.append("(%s, %s)" % (flit(v), flit(fx(w))))
     ctx.count("wrap360", len(LW))
 
+    LX = []
+    for (kind, hb), got in zip(xcases, obs["extract"]):
+        want = 0 if kind == 0 else (1 if hb else 2)
+        ctx.count("extract_lons_lats:" + ["pair", "object+bounding_box" if hb else "object without bounding_box", "legacy object"][kind])
+        ctx.case(("extract", kind, hb), nontrivial=kind != 0)
+        if got != want:
+            ctx.add_failure("C14.extract_lons_lats", "_extract_lons_lats used source %s, the property needs %d (0 = the pair, 1 = bounding_box "
+                            "attribute, 2 = all positions of the object)" % (got, want), {"oracle": "extract", "case": [kind, hb], "impl": got})
+        if isinstance(got, int):
+            LX.append("((%d), %s, (%d))" % (kind, "true" if hb else "false", got))
     texts = shard(ctx, "c14_freeze", "fcase", "chk_freeze", L, "freeze", 150)
+    # the same cases through the GENERATED object-level methods (Gen/GenC14imp.v); optimize_projection cases go through
+    # compute_optimal_bb_area, which the generated freeze reaches as the abstract w_optimal
+    texts += shard(ctx, "c14_imp_freeze", "fcase", "chk_imp_freeze", L, "imp_freeze", 150)
+    texts += shard(ctx, "c14_imp_extract", "(Z * bool * Z)", "chk_imp_extract", LX, "imp_extract_lons_lats", 100)
     texts += shard(ctx, "c14_cd", "ccase", "chk_cd", LC, "compute_domain", 400)
     texts += shard(ctx, "c14_idx", "icase", "chk_index", LI, "masked_index", 400)
     texts += shard(ctx, "c14_wrap", "(float * float)", "chk_wrap", LW, "wrap360", 2000)
